@@ -20,7 +20,7 @@ import itertools
 import z3
 from pyvc import xreal as xr
 from pyvc.xreal import X
-from pyvc.numexec import Unsupported
+from pyvc.numexec import Unsupported, ANALYSIS
 from pyvc.arrays import ArrExec, Arr, Sc, IntS, ObjA, Raised, rint, INT, REAL
 from pyvc.solve import Obl, static, undecided
 from pyvc.runner import main
@@ -111,7 +111,7 @@ def verify_shapes(run):
                 z, y, ex = pipeline(run, cls, N, r, kinds)
             except Raised as ex_:
                 groups["otherwise"].append((tag, False, f"raises {ex_.exc}")); continue
-            except Unsupported as ex_:
+            except ANALYSIS as ex_:
                 run.add(undecided(f"{fq}/subset[{tag}]", f"outside the verified subset: {ex_}", fn=fq, meta=RP())); continue
             zshape = z.shape if isinstance(z, Arr) else ()
             want = () if isinstance(N, int) else (N,)
